@@ -136,6 +136,16 @@ class CbScn:
                     w.observe("waitclose", type(e).__name__)
                 # the callbacks run in the receiver thread: let it settle
                 em.sleep(1.0)
+                if P.get("close_after"):
+                    # the conversation is over and its endmarker delivered: closing the handle now (and the
+                    # end of the gateway below) must not deliver it again
+                    try:
+                        ch.close()
+                    except BaseException as e:  # noqa: BLE001
+                        w.observe("close-after", type(e).__name__)
+                    em.sleep(0.5)
+                    S.group.terminate(timeout=2.0)
+                    em.sleep(0.5)
             w.exploring = False
             S.ctx["calls"] = list(calls)
             w.observe("main-done")
@@ -326,6 +336,14 @@ def run(tier: str, only=None) -> int:
             if C["end"] == "kill" and tr == "socket":
                 continue  # the socket worker lives in the master's process: killing it is the C04 scenario
             P = dict(C, transport=tr, backend=be)
+            harness.run_exploration(rep, PID, name, CbScn, P, {"ps": 1, "free": 0}, max_execs=cap)
+    # setcallback only after the conversation is over (delay), then close() of the handle and the gateway's end
+    for end in ("kill", "body-end", "error", "close", "exit"):
+        for tr in ("popen", "via"):
+            name = f"cb/late-then-close:{end}:{tr}"
+            if only and only not in name:
+                continue
+            P = {"n": 2, "k": 0, "end": end, "chan": "new" if end == "close" else "exec", "endmarker": True, "delay": 3.0, "close_after": True, "transport": tr, "backend": "thread"}
             harness.run_exploration(rep, PID, name, CbScn, P, {"ps": 1, "free": 0}, max_execs=cap)
     # the callback itself fails on an item (first / second): the channel ends, the endmarker still comes once
     for at in (0, 1):
